@@ -185,3 +185,52 @@ def replay_ddm(trials=30, seed=0):
                                                           "lattice_columns": lat.tolist(), "q": d["q"].tolist()},
                         "expected": "each Cartesian component equals the q-derivative of herm(Dspec)"}
     return {"reproduced": False, "executions": 2 * trials, "reason": "real kernel agrees with the finite difference of the spec"}
+
+
+def replay_get_dd(trials=60, seed=0):
+    """real get_dd (Gonze-Lee reciprocal sum) against its spec, including K = G + q shorter / just longer than the tolerance"""
+    from pvc import creplay
+    lib = creplay.lib("dynmat")
+    f = lib.get_dd
+    f.restype = None
+    rng = np.random.default_rng(seed)
+    for t in range(trials):
+        n = int(rng.integers(1, 3))
+        nG = int(rng.integers(1, 5))
+        G = rng.normal(size=(nG, 3))
+        G[0] = 0.0                                        # the G = 0 term decides the zone-centre behaviour
+        eps = np.eye(3) * 3 + 0.2 * rng.normal(size=(3, 3))
+        eps = (eps + eps.T) / 2
+        pos = rng.uniform(size=(n, 3))
+        lam = float(rng.uniform(0.5, 2.0))
+        tol = 1e-5
+        scale = [0.0, 3e-6, 1e-4, 1e-3, 0.3][int(rng.integers(0, 5))]
+        q = rng.normal(size=3)
+        q = q / np.linalg.norm(q) * scale
+        for with_dir in (False, True):
+            qd = rng.normal(size=3) if with_dir else None
+            old = rng.normal(size=(n, 3, n, 3, 2))
+            dd = old.copy()
+            for omp in (0, 1):
+                dd = old.copy()
+                f(_p(dd), _p(G), ctypes.c_int64(nG), ctypes.c_int64(n), _p(q), _p(qd) if qd is not None else None, _p(eps), _p(pos),
+                  ctypes.c_double(lam), ctypes.c_double(tol), ctypes.c_int64(omp))
+                want = old.copy()
+                for g in range(nG):
+                    K = G[g] + q
+                    if np.sqrt(K @ K) < tol:
+                        KK = np.zeros((3, 3)) if qd is None else np.outer(qd, qd) / (qd @ eps @ qd)
+                    else:
+                        keK = K @ eps @ K
+                        KK = np.outer(K, K) / keK * np.exp(-keK / (4 * lam * lam))
+                    for i in range(n):
+                        for j in range(n):
+                            ph = 2 * np.pi * ((pos[i] - pos[j]) @ G[g])
+                            want[i, :, j, :, 0] += KK * np.cos(ph)
+                            want[i, :, j, :, 1] += KK * np.sin(ph)
+                err = float(np.abs(dd - want).max())
+                if err > 1e-9:
+                    return {"reproduced": True, "real_code": {"function": "get_dd", "max_abs_deviation": err, "|q_cart|": float(np.linalg.norm(q)), "tolerance": tol,
+                                                              "q_direction_given": with_dir, "use_openmp": omp, "num_G": nG, "num_patom": n},
+                            "expected": "sum over G of K K^T/(K.eps.K) exp(-K.eps.K/4 lambda^2) e^{2 pi i (x_i - x_j).G}, the |K| < tolerance term replaced by the direction term (or dropped)"}
+    return {"reproduced": False, "executions": 4 * trials, "reason": "real kernel agrees with the spec"}
